@@ -334,39 +334,42 @@ class ConcurrentExecutor(ABC, Generic[CallableType, ResultType]):
             exe_state.suspend()
             return
 
-        try:
-            result = future.result()
-            exe_state.complete(result)
-            self.counters.complete_task()
-        except OrphanedChildException:
-            # Parent already completed and returned.
-            # State is already RUNNING, which _create_result() marked as STARTED
-            # Just log and exit - no state change needed
-            logger.debug(
-                "Terminating orphaned branch %s without error because parent has completed already",
-                exe_state.index,
-            )
-            return
-        except TimedSuspendExecution as tse:
-            exe_state.suspend_with_timeout(tse.scheduled_timestamp)
-            scheduler.schedule_resume(exe_state, tse.scheduled_timestamp)
-        except SuspendExecution:
-            exe_state.suspend()
-            # For indefinite suspend, don't schedule resume
-        except Exception as e:  # noqa: BLE001
-            exe_state.fail(e)
-            self.counters.fail_task()
-        except BaseException as e:  # noqa: BLE001
-            # Not a branch failure (BackgroundThreadError after a checkpoint failure, SystemExit, ...):
-            # it must not be swallowed by the future's callback machinery, which would leave the
-            # thread in execute() waiting forever. Hand it over and wake that thread.
-            self._fatal_exception = e
-            self._completion_event.set()
-            return
-
-        # Check if execution should complete or suspend. Decide under the lock the resubmitter
-        # holds, so that no branch is resubmitted after the decision was taken.
+        # The branch's state transition, its counter update and the decision are one atomic step:
+        # a decision taken between another branch's state change and its counter update would see
+        # that branch as finished but not counted, and suspend although the policy is decided.
+        # It is the lock the resubmitter holds, so no branch is resubmitted after the decision.
         with self._decision_lock:
+            try:
+                result = future.result()
+                exe_state.complete(result)
+                self.counters.complete_task()
+            except OrphanedChildException:
+                # Parent already completed and returned.
+                # State is already RUNNING, which _create_result() marked as STARTED
+                # Just log and exit - no state change needed
+                logger.debug(
+                    "Terminating orphaned branch %s without error because parent has completed already",
+                    exe_state.index,
+                )
+                return
+            except TimedSuspendExecution as tse:
+                exe_state.suspend_with_timeout(tse.scheduled_timestamp)
+                scheduler.schedule_resume(exe_state, tse.scheduled_timestamp)
+            except SuspendExecution:
+                exe_state.suspend()
+                # For indefinite suspend, don't schedule resume
+            except Exception as e:  # noqa: BLE001
+                exe_state.fail(e)
+                self.counters.fail_task()
+            except BaseException as e:  # noqa: BLE001
+                # Not a branch failure (BackgroundThreadError after a checkpoint failure, SystemExit, ...):
+                # it must not be swallowed by the future's callback machinery, which would leave the
+                # thread in execute() waiting forever. Hand it over and wake that thread.
+                self._fatal_exception = e
+                self._completion_event.set()
+                return
+
+            # Check if execution should complete or suspend.
             if self.counters.should_complete():
                 self._completion_event.set()
             else:
